@@ -74,6 +74,9 @@ pub enum Step {
     Settle,
     /// C07 sequential: clean stop and restart of the node from its directory
     Restart,
+    /// routing-table churn: the `which`-th of the node's close peers leaves its routing table (the node no longer
+    /// knows it); proofs naming it as payee afterwards name a peer the node does not know as close
+    PeerLeaves { which: u8 },
 }
 
 #[derive(Serialize, Deserialize, Clone, Debug)]
@@ -129,10 +132,20 @@ fn break_one(rng: &mut Rng, p: &mut Pay) {
         0 => {
             let i = rng.usize_below(p.n as usize);
             // 1 forged, 2 signed by another key, 3 a self-consistent quote of another node listed under this payee
-            p.sigs[i] = 1 + rng.below(3) as u8;
+            // 4 / 5: a genuine, paid quote with one field rewritten after signing - 4 the content address (signed for
+            // another address, now naming the stored one; biased to this node's own quote), 5 the timestamp (signed two
+            // hours ago, now dated recently)
+            p.sigs[i] = 1 + rng.below(5) as u8;
+            if p.sigs[i] == 4 && rng.chance(2, 3) {
+                if let Some(sp) = p.self_pos {
+                    p.sigs[i] = 0;
+                    p.sigs[sp as usize] = 4;
+                }
+            }
         }
         1 => p.self_pos = None,
-        2 => p.far = Some((rng.below(p.n as u64) as u8, rng.below(2) as u8)),
+        // how: 0 a far routing-table peer, 1 an unknown peer, 2 a peer that has left the routing table (else unknown)
+        2 => p.far = Some((rng.below(p.n as u64) as u8, rng.below(3) as u8)),
         3 => p.age = Some((rng.below(p.n as u64) as u8, 1)),
         4 => p.age = Some((rng.below(p.n as u64) as u8, 2)),
         5 => p.chain[rng.usize_below(3)] = 1,
@@ -358,6 +371,17 @@ impl Sim for NodeSim {
                 if prop == "C07" && with_restarts && rng.chance(1, 4) {
                     steps.push(Step::Restart);
                 }
+            }
+        }
+        // C03, a third of the sequential runs: close peers leave the routing table between the uploads
+        if prop == "C03" && ctx.mode != "concurrent" && rng.chance(1, 3) {
+            for _ in 0..rng.urange(1, 3) {
+                let at = rng.usize_below(steps.len().max(1));
+                // only in front of a delivery (a Settle follows each delivery)
+                let at = at - at % 2;
+                steps.insert(at, Step::PeerLeaves { which: rng.below(32) as u8 });
+                // make the step even-aligned again
+                steps.insert(at + 1, Step::Settle);
             }
         }
         // big-register runs concentrate on register 0: replicated copies with the owner's ops and differing shares
